@@ -131,6 +131,10 @@ def correspond(ctx):
     for i in range(n):
         text = gen_text(rnd, ca)
         name = rnd.choice(list(cons))
+        if text.startswith("object-group") and rnd.random() < 0.8:      # texts shaped for one constructor go to it
+            name = rnd.choice(["AddrGroup", "AddrGroup", "addrgroups"])
+        elif "interface Gi1" in text and rnd.random() < 0.8:
+            name = rnd.choice(["acls", "acls", "Acl", "aces"])
         plat = rnd.choice(["ios", "nxos", "ios", "nxos", "asa"])
         seen.add((name, text))
         meta = {"k": "probe", "class": name, "text": text, "platform": plat}
